@@ -1536,7 +1536,14 @@ where
                 };
 
                 if let Some(cache_write) = cache_write {
-                    match cache_write.await {
+                    // The compilation has succeeded and `res` is ready: a storage
+                    // backend that panics while storing must not take the response
+                    // (and the accounting of this miss) down with it.
+                    let cache_write = std::panic::AssertUnwindSafe(cache_write)
+                        .catch_unwind()
+                        .await
+                        .unwrap_or_else(|_| Err(anyhow!("the cache write panicked")));
+                    match cache_write {
                         Err(e) => {
                             debug!("Error executing cache write: {}", e);
                             me.stats.lock().await.cache_write_errors += 1;
